@@ -56,6 +56,7 @@ class Stats:
         if len(self.violations) < 20:
             self.violations.append({'kind': kind, 'detail': detail, 'replay': replay})
         self.count('violations_total')
+        self.count('viol_' + kind)
 
     def sample(self, s, cap=3):
         if len(self.samples) < cap:
